@@ -1,16 +1,21 @@
 #!/bin/bash
-# usage: seed_eval.sh Cxx [extra check args]  -- applies /tmp/seed-Cxx-out/patch.diff (or $PATCHFILE, e.g. seeded/Cxx_2/patch.diff) to /repo, runs the quick check, reverts.
+# usage: seed_eval.sh <seed dir name under seeded/, e.g. C07 or C07_2> [extra check args]
+# Applies seeded/<name>/patch.diff to a scratch worktree of /repo (outside /repo and /verif), runs the quick check of the
+# property against that tree (VERIF_REPO), prints the verdict lines, removes the worktree. /repo itself is never touched.
 set -u
-P=$1; shift
+N=$1; shift
+P=${N%%_*}
 cd /verif
-if ! git -C /repo diff --quiet; then echo "/repo not clean"; exit 2; fi
-O=/tmp/${SEEDPFX:-seed}-$P-out; mkdir -p $O
-git -C /repo apply ${PATCHFILE:-$O/patch.diff} || { echo "patch does not apply"; exit 2; }
+WT=/tmp/seedeval-$N-$$
+git -C /repo worktree add -f --detach $WT HEAD -q || exit 2
+trap 'git -C /repo worktree remove --force '$WT' 2>/dev/null; git -C /repo worktree prune' EXIT
+git -C $WT apply /verif/seeded/$N/patch.diff || { echo "patch does not apply"; exit 2; }
 start=$(date +%s)
-./check $P --tier quick "$@" > /tmp/${SEEDPFX:-seed}-$P-out/check_quick.log 2>&1
+VERIF_REPO=$WT ./check $P --tier quick --rundir seedeval-$N "$@" > /tmp/seedeval-$N.log 2>&1
 rc=$?
 end=$(date +%s)
-git -C /repo checkout -- .
-echo "seed $P: check exit=$rc wall=$((end-start))s"
-grep -E "^VIOLATION|reason:" /tmp/${SEEDPFX:-seed}-$P-out/check_quick.log | cut -c1-260 | head -6
-rm -rf /verif/replays/$P/new
+echo "seed $N: check exit=$rc wall=$((end-start))s"
+grep -E "^VIOLATION|reason:" /tmp/seedeval-$N.log | cut -c1-260 | head -6
+rm -rf /verif/replays/$P/new /verif/build/seedeval-$N
+git -C /verif checkout -- evidence/$P.json 2>/dev/null
+exit 0
